@@ -52,21 +52,42 @@ fn run_script(line: &str) -> String {
     let resp = reqwest::Response::from(http::Response::new(body));
     let mut es = EventStream::<Box<serde_json::value::RawValue>>::from_response(resp);
     let mut out = vec![];
-    futures::executor::block_on(async {
-      let mut n = 0;
-      while let Some(item) = es.next().await {
-        match item {
-          Ok(v) => out.push(format!("O{}", hex(v.get().as_bytes()))),
-          Err(EventStreamError::JsonDeserialize { .. }) => out.push("EJ".to_string()),
-          Err(EventStreamError::SseParse(_)) => out.push("EU".to_string()),
+    // a hand-rolled executor that honours the waker contract: `Pending` without a wake-up = the consumer is
+    // parked forever (reported as STALLED instead of hanging)
+    struct Count(std::sync::atomic::AtomicUsize);
+    impl futures::task::ArcWake for Count {
+      fn wake_by_ref(a: &std::sync::Arc<Self>) {
+        a.0.fetch_add(1, std::sync::atomic::Ordering::SeqCst);
+      }
+    }
+    let count = std::sync::Arc::new(Count(std::sync::atomic::AtomicUsize::new(0)));
+    let waker = futures::task::waker(count.clone());
+    let mut cx = Context::from_waker(&waker);
+    let mut n = 0;
+    loop {
+      let before = count.0.load(std::sync::atomic::Ordering::SeqCst);
+      match es.poll_next_unpin(&mut cx) {
+        Poll::Ready(Some(item)) => {
+          match item {
+            Ok(v) => out.push(format!("O{}", hex(v.get().as_bytes()))),
+            Err(EventStreamError::JsonDeserialize { .. }) => out.push("EJ".to_string()),
+            Err(EventStreamError::SseParse(_)) => out.push("EU".to_string()),
+          }
+          n += 1;
+          if n > 100_000 {
+            out.push("RUNAWAY".into());
+            break;
+          }
         }
-        n += 1;
-        if n > 100_000 {
-          out.push("RUNAWAY".into());
-          break;
+        Poll::Ready(None) => break,
+        Poll::Pending => {
+          if count.0.load(std::sync::atomic::Ordering::SeqCst) == before {
+            out.push("STALLED".to_string());
+            break;
+          }
         }
       }
-    });
+    }
     out.join(" ")
   }));
   match r {
